@@ -878,6 +878,7 @@ fn expected_probes(scenario: &str) -> &'static [&'static str] {
 		"ioerr" | "drop" => &["gen:log_rotation_prefix", "gen:index_growth_swarm"],
 		"logfuzz" => &["logfuzz_field_overwritten", "gen:index_growth_swarm"],
 		"treelock" => &["gen:treelock_prefix"],
+		"admin" => &["gen:many_columns"],
 		_ => &[],
 	}
 }
